@@ -18,3 +18,10 @@ for (_l, _f, _tier) in ((3, 2, 'quick'), (4, 2, 'quick'), (5, 3, 'thorough'), (6
         what='iterator / count / parse on arbitrary bytes: in-bounds results, existing frames, mutual agreement'))
 META = {'enforced_elsewhere': ['skip_extension_payload'],
         'cex': {'tu': 'C16_roundtrip.c', 'entry': 'h_ext_arbitrary', 'unwind': 7, 'defines': ['-DVERIF_RAW=4', '-DVERIF_RAW_NF=2'], 'timeout': 1200}}
+for _c in (1, 2):
+    GROUPS.append(dict(name='out_range_ext_c%d' % _c, cls='F', tu='C16_out_range_ext.c', entry='h_out_range_ext', dfcc=False, canary='real', expect_canaries=1, unwind=16, timeout=3600, mem_gb=20, tier='quick' if _c == 1 else 'thorough',
+        defines=['-DVERIF_COUNT=%d' % _c], functions=['opus_repacketizer_out_range_impl', 'opus_packet_parse_impl', 'encode_size'],
+        ignore=[(r'same object violation in ptr - frames', 'OPUS_MOVE type-check term 0*((dst)-(src)) on distinct buffers')],
+        trusted=['stub of opus_packet_extensions_generate (reports a symbolic size <= 1100, records where it writes); frame-only memmove stub'],
+        bounds='%d frame(s) of 0..300 bytes, serialised extensions of any size 1..1100 bytes (covers the 254/255/509/510/763 boundaries), any maxlen, no extra padding requested' % _c,
+        what='placement of the serialised extensions inside the output packet: exactly the tail of the padding area as the real parser sees it, preceded by 0x01 fill'))
